@@ -155,17 +155,18 @@ def stepExp (s : ESpace) (nd : Nat) (ws : List String) : ESpace × String :=
     match a.toNat?, ints xs with
     | some a, some p =>
       if badLen nd p then bad else
-      match agentSetV s a p with
-      | .ok s' => (s', "ok")
-      | .error e => (s, fmtErr e)
+      match agentSetVW false s a p with
+      | (s', .ok _) => (s', "ok")
+      | (s', .error e) => (s', fmtErr e)
     | _, _ => bad
   | "iadd" :: a :: xs =>
     match a.toNat?, ints xs with
     | some a, some v =>
       if badLen nd v then bad else
-      match agentIaddV s a v with
-      | .ok s' => (s', "ok")
-      | .error e => (s, fmtErr e)
+      -- the state after the call is the model's also when the call raises (nothing is put back here)
+      match agentIaddVW false s a v with
+      | (s', .ok _) => (s', "ok")
+      | (s', .error e) => (s', fmtErr e)
     | _, _ => bad
   | ["poke", a, j, x] =>
     match a.toNat?, j.toNat?, x.toInt? with
